@@ -903,6 +903,9 @@ impl BuiltInFunction {
                             .with_context(|| format!("`{i128}` cannot be made into a int"))?,
                     ),
                     Primitive::Byte(u8) => Primitive::Int(*u8 as i32),
+                    Primitive::Float(f64) if f64.is_nan() => {
+                        bail!("`{f64}` cannot be made into a int")
+                    }
                     Primitive::Float(f64) => Primitive::Int(
                         (*f64 as i64)
                             .try_into()
@@ -952,6 +955,9 @@ impl BuiltInFunction {
                             .with_context(|| format!("`{i128}` cannot be made into a byte"))?,
                     ),
                     Primitive::Byte(u8) => Primitive::Byte(*u8),
+                    Primitive::Float(f64) if f64.is_nan() => {
+                        bail!("`{f64}` cannot be made into a byte")
+                    }
                     Primitive::Float(f64) => Primitive::Byte(
                         (*f64 as i64)
                             .try_into()
